@@ -9,7 +9,9 @@
 (*   "flat":[{p,v}..],            the SyncMap                              *)
 (*   "probe":[{p,e,g}..]}         PathExists / Get on every short path     *)
 (* Every judgement is an operator of SyncTree evaluated by TLC; after each *)
-(* line the model re-synchronises on the observation.  Predicates:         *)
+(* line the model re-synchronises on the observation.  A rejected line is  *)
+(* printed as {"l","bad" (the operation),"pbad" (the sweep),"exp"}.        *)
+(* Predicates:                                                             *)
 (*  X01.Result        answer of set/get/del/data/over (incl. who panics)   *)
 (*  X01.Tree          observable tree after the step                       *)
 (*  X01.PanicAtomic   a panicking call left the tree unchanged             *)
@@ -60,8 +62,9 @@ Reset ==
     /\ LET ln == Trace[l]
            obsT == Range(ln.tree)
            bad == (IF obsT # {} \/ Range(ln.flat) # {} \/ \E i \in DOMAIN ln.hs : ln.hs[i].live THEN {"X01.Init"} ELSE {})
-                  \cup ProbeBad(ln, obsT)
-       IN /\ IF bad = {} THEN TRUE ELSE PrintT(ToJson([l |-> l, bad |-> bad, exp |-> [res |-> Ok(0, {}), tree |-> {}]]))
+           pbad == ProbeBad(ln, obsT)
+       IN /\ IF bad = {} /\ pbad = {} THEN TRUE
+             ELSE PrintT(ToJson([l |-> l, bad |-> bad, pbad |-> pbad, exp |-> [res |-> Ok(0, {}), tree |-> {}]]))
           /\ t' = obsT /\ hd' = Hs(ln) /\ flat' = Range(ln.flat)
           /\ judged' = judged /\ Summary(judged)
     /\ l' = l + 1
@@ -103,7 +106,8 @@ Step1 ==
              \cup (IF o.op = "fset" /\ (res.st # "ok" \/ obsF # FlatSet(flat, o.p[1], o.val.v)) THEN {"X01.Flat"} ELSE {})
              \cup (IF obsT # t \/ ~othersSame THEN {"X01.Isolated"} ELSE {})
            badWF == IF WF(obsT) THEN {} ELSE {"X01.WellFormed"}
-           bad == badTree \cup badH \cup badF \cup badWF \cup ProbeBad(ln, obsT)
+           bad == badTree \cup badH \cup badF \cup badWF
+           pbad == ProbeBad(ln, obsT)
            liveOthers == \E h \in DOMAIN hd : hd[h].live /\ h # dest
            tags == {o.op} \cup ProbeTags(ln, obsT)
                    \cup (IF isTree /\ r.res.st = "PANIC" THEN {"panic:" \o o.op} ELSE {})
@@ -115,8 +119,8 @@ Step1 ==
                    \cup (IF o.op = "set" /\ r.res.st = "ok" /\ IsMapAt(t, o.p) /\ Sub(t, o.p) # {} THEN {"set:replaces-subtree"} ELSE {})
                    \cup (IF o.op = "del" /\ r.res.st = "ok" /\ IsMapAt(t, o.p) /\ Sub(t, o.p) # {} THEN {"del:subtree"} ELSE {})
                    \cup (IF o.op = "del" /\ r.res.st = "ok" /\ ~Has(t, o.p) THEN {"del:absent"} ELSE {})
-       IN /\ IF bad = {} THEN TRUE
-             ELSE PrintT(ToJson([l |-> l, bad |-> bad, exp |-> [res |-> r.res, tree |-> r.t]]))
+       IN /\ IF bad = {} /\ pbad = {} THEN TRUE
+             ELSE PrintT(ToJson([l |-> l, bad |-> bad, pbad |-> pbad, exp |-> [res |-> r.res, tree |-> r.t]]))
           /\ t' = obsT /\ hd' = obsH /\ flat' = obsF
           /\ LET j2 == BumpAll(judged, tags) IN judged' = j2 /\ Summary(j2)
     /\ l' = l + 1
